@@ -563,6 +563,53 @@ namespace {
       std::cout << "SUMMARY " << vj::dump(s) << "\n";
       return 0;
    }
+   // spec/IprStmtRender.tla: the exact text of a statement tree
+   int do_replay_render()
+   {
+      std::ios::sync_with_stdio(false);
+      std::string line;
+      LastBeh lastbeh;
+      long behaviours = 0, failed = 0, printed = 0;
+      std::map<std::string, long> fail_keys;
+      std::set<std::string> classes;
+      std::string sample;
+      while (std::getline(std::cin, line)) {
+         std::string text = line.rfind("<<\"BEH\"", 0) == 0 ? tlc_unescape(line) : line;
+         if (text.empty() or text[0] != '{') continue;
+         Value beh = vj::parse(text);
+         lastbeh.note(text);
+         ++behaviours;
+         if (sample.empty() or behaviours == 700) sample = text;
+         Program a;
+         auto& t = beh.at("t");
+         auto& sa = a.build(t, *a.unit.global_region());
+         auto got = render(a.lex, sa, false);
+         auto kind = t.at(0).as_str();
+         std::string inner = "leaf";
+         if (t.size() > 1 and t.at(1).is_arr() and t.at(1).size() > 0)
+            inner = t.at(1).at(0).is_str() ? t.at(1).at(0).as_str() : (t.at(1).at(0).is_arr() and t.at(1).at(0).size() > 0 ? t.at(1).at(0).at(0).as_str() : "empty");
+         classes.insert(kind + "<" + inner);
+         if (got != beh.at("txt").as_str()) {
+            ++failed;
+            auto key = kind + ":" + inner;
+            ++fail_keys[key];
+            if (printed++ < 20) {
+               auto f = Value::object();
+               auto pre = Value::array();
+               pre.push(t);
+               f.set("key", key).set("step", 1).set("expected", beh.at("txt")).set("got", got).set("beh", pre);
+               std::cout << "FAIL " << vj::dump(f) << "\n";
+            }
+         }
+      }
+      auto s = Value::object();
+      auto fk = Value::object();
+      for (auto& kv : fail_keys) fk.set(kv.first, kv.second);
+      s.set("behaviours", behaviours).set("steps", behaviours).set("failed", failed).set("fail_keys", fk)
+         .set("classes", static_cast<long>(classes.size())).set("sample", sample);
+      std::cout << "SUMMARY " << vj::dump(s) << "\n";
+      return 0;
+   }
 }
 
 int main(int argc, char** argv)
@@ -571,6 +618,7 @@ int main(int argc, char** argv)
    try {
       if (mode == "sweep") return do_sweep();
       if (mode == "replay") return do_replay();
+      if (mode == "replay-render") return do_replay_render();
    }
    catch (const std::exception& e) {
       std::cout << "HARNESS-ERROR " << e.what() << "\n";
